@@ -1,13 +1,13 @@
 package props
 
 import (
-	"sort"
 	"bytes"
 	"context"
 	"encoding/json"
 	"errors"
 	"fmt"
 	"net/http"
+	"sort"
 	"strings"
 	"time"
 
